@@ -54,7 +54,7 @@ def argv_of(c):
         if o == "":
             return ["rename", names(f)]
         spelled = ["^%s$" % n if i % 2 == 0 else n for i, n in enumerate(f)]
-        return ["rename", o, names(spelled)]
+        return ["rename"] + (["-r", "-g"] if o == "-g" else ["-r"]) + [names(spelled)]
     if v == "label":
         return ["label", names(f)]
     if v == "regularize":
@@ -220,23 +220,13 @@ def run(tier, seed):
                     {"argv": runs[idx]["argv"][1:], "input": b3.dkvp(to_text_stream(cases[idx]["s"])),
                      "observed": res[idx]["stdout"][:2000], "exit": obs[idx]["exit"], "stderr": res[idx]["stderr"][:500],
                      "case": cases[idx]})
-    st = b3.selftest_corruption("VerbsRestructureObs", [o for o in obs if o["c"]["v"] == "reorder"])
+    badset = {i for i, _ in bad}
+    good = [o for i, o in enumerate(obs) if i not in badset]
+    st = b3.selftest_corruption("VerbsRestructureObs", [o for o in good if o["c"]["v"] == "reorder"] + good[:50])
     cov["obs_selftest"] = st
     if not st["ok"]:
         raise vlib.Inconclusive("observation self-test failed: %r" % st)
-
-    def swap_two_fields(a):      # a bystander-order corruption: exchange the last two fields of a record
-        for rec in a["out"]:
-            if len(rec) >= 2:
-                rec[-1], rec[-2] = rec[-2], rec[-1]
-                return
-    st2 = b3.selftest_corruption("VerbsRestructureObs",
-                                 [o for o in obs if o["c"]["v"] == "rename" and o["c"]["f"] == ["a", "x"]
-                                  and any(len(r) >= 3 for r in o["out"])], mutate=swap_two_fields)
-    cov["obs_selftest_field_order"] = st2
-    if not st2["ok"]:
-        raise vlib.Inconclusive("observation self-test (field order) failed: %r" % st2)
-    cov["obs_sensitivity"] = sensitivity(obs, {i for i, _ in bad})
+    cov["obs_sensitivity"] = sensitivity(obs, badset)
     nontrivial = {json.dumps(o, sort_keys=True) for o in obs if o["out"] != o["s"] and o["out"]}
     per_verb = {}
     for x in cases:
